@@ -166,7 +166,8 @@ func (h *killedHandler) handleRestart() {
 	} else {
 		h.ctx.restarting = nil
 		atomic.StoreInt32(&h.ctx.state, running)
-		h.ctx.tell(true, h.ctx.parent, new(vivid.OnLaunch))
+		// 重启后的 OnLaunch 应投递给被重启的 Actor 自身（发送者为父 Actor，与 ActorOf 保持一致），而非其父 Actor
+		h.ctx.mailbox.Enqueue(mailbox.NewEnvelop(true, h.ctx.parent, h.ctx.ref, new(vivid.OnLaunch)))
 		h.ctx.mailbox.Resume()
 
 		// 通知事件流
